@@ -10,19 +10,90 @@ Conventions
   steps (O(h^2) -> O(h^4) -> O(h^6)); the difference between the two O(h^4) extrapolants is returned as
   the conditioning estimate so that a caller can drop (and count) non-smooth or round-off dominated points.
 """
+import math
+
 import numpy as np
 
-__all__ = ['inner', 'norm', 'richardson_directional', 'richardson_elementwise', 'complex_step_elementwise']
+__all__ = ['inner', 'norm', 'richardson_directional', 'richardson_elementwise', 'complex_step_elementwise',
+           'DTYPES', 'cast', 'f32_exact', 'relayout', 'LAYOUTS', 'hutchinson_norm']
+
+DTYPES = {'c64': np.complex64, 'c128': np.complex128, 'f32': np.float32, 'f64': np.float64}
+LAYOUTS = ('C', 'F', 'strided', 'reversed')
+
+
+def _wide(a):
+    """The array in double precision (float64 / complex128): the laws are always evaluated in double."""
+    a = np.asarray(a)
+    if a.dtype.kind == 'c':
+        return a.astype(np.complex128, copy=False)
+    return a.astype(np.float64, copy=False)
 
 
 def inner(a, b):
-    """<a, b> = sum conj(a) b over all samples."""
-    return np.vdot(np.asarray(a).ravel(), np.asarray(b).ravel())
+    """<a, b> = sum conj(a) b over all samples (accumulated in double precision whatever the input dtypes)."""
+    return np.vdot(_wide(a).ravel(), _wide(b).ravel())
 
 
 def norm(a):
-    a = np.asarray(a)
+    a = _wide(a)
     return float(np.sqrt(np.sum(np.abs(a) ** 2)))
+
+
+def cast(a, dt):
+    """A copy of `a` in the dtype labelled dt ('f32', 'f64', 'c64', 'c128'; None = unchanged copy).
+
+    A complex array asked to become a real label keeps its kind (f32 -> c64, f64 -> c128) and vice versa: the label
+    fixes the *width*, the kind is the array's own."""
+    a = np.asarray(a)
+    if dt is None:
+        return np.array(a, copy=True)
+    wide = dt in ('f64', 'c128')
+    if a.dtype.kind == 'c':
+        return a.astype(np.complex128 if wide else np.complex64)
+    if a.dtype.kind == 'b':
+        return np.array(a, copy=True)
+    return a.astype(np.float64 if wide else np.float32)
+
+
+def f32_exact(a):
+    """The nearest array (same kind, double precision) whose values are exactly representable in single precision,
+    so that narrowing it later loses nothing and every configuration of one case sees the same numbers."""
+    a = np.asarray(a)
+    if a.dtype.kind == 'c':
+        return a.astype(np.complex64).astype(np.complex128)
+    return a.astype(np.float32).astype(np.float64)
+
+
+def relayout(a, layout):
+    """An array with the values (and dtype) of `a` in another memory layout; always a fresh buffer.
+
+    'C' row-major contiguous, 'F' column-major contiguous, 'strided' every second element of a larger buffer whose
+    other elements hold a large junk value, 'reversed' negative strides along every axis."""
+    a = np.asarray(a)
+    if a.ndim == 0 or layout == 'C':
+        return np.array(a, order='C', copy=True)
+    if layout == 'F':
+        return np.array(a, order='F', copy=True)
+    if layout == 'strided':
+        big = np.full(tuple(2 * s + 1 for s in a.shape), 7.0e3, dtype=a.dtype)
+        sl = tuple(slice(1, 2 * s + 1, 2) for s in a.shape)
+        big[sl] = a
+        return big[sl]
+    if layout == 'reversed':
+        sl = tuple(slice(None, None, -1) for _ in a.shape)
+        buf = np.array(a[sl], order='C', copy=True)
+        return buf[sl]
+    raise ValueError(layout)
+
+
+def hutchinson_norm(directional, shape, rng, k=4):
+    """Estimate |grad| of a scalar function from k directional derivatives along random +-1 directions:
+    E <grad, d>^2 = |grad|^2 for Rademacher d.  `directional(d)` returns the derivative along d."""
+    acc = 0.0
+    for _ in range(k):
+        d = rng.integers(0, 2, shape) * 2.0 - 1.0
+        acc += float(directional(d)) ** 2
+    return math.sqrt(acc / k)
 
 
 def _central(c, h):
